@@ -127,6 +127,7 @@ int main(void)
       else if(IS("s_del")){ DelStrVector(&S[z(1)]); S[z(1)] = NULL; }
       else if(IS("s_append")){ StrVectorAppend(S[z(1)], tok[2]); }
       else if(IS("s_appint")){ StrVectorAppendInt(S[z(1)], (int)strtol(tok[2], NULL, 10)); }
+      else if(IS("s_appdbl")){ StrVectorAppendDouble(S[z(1)], strtod(tok[2], NULL)); }
       else if(IS("s_set")){ setStr(S[z(1)], z(2), tok[3]); }
       else if(IS("s_extend")){ S[z(3)] = StrVectorExtend(S[z(1)], S[z(2)]); }
       else { fprintf(stderr, "drv_cont: unknown op %s\n", tok[0]); return 3; }
